@@ -269,6 +269,24 @@ func deextract(repo string, cfg BuildConfig, ref symTable, overlay map[string][]
 		fresh := freshFunctions(ref, cfg.Name, pkgs)
 		progress := false
 		touched := map[string]bool{}
+		// statements inside a helper that is still going to be inlined are left as they are: rewriting them there and
+		// copying the result to several call sites of one function would declare the same label or temporary twice;
+		// they are rewritten where they end up
+		type posRange struct{ s, e token.Pos }
+		pending := map[*ast.File][]posRange{}
+		for _, ff := range fresh {
+			if name := ff.obj.FullName(); !gaveUp[name] && !skip[name] {
+				pending[ff.file] = append(pending[ff.file], posRange{ff.decl.Pos(), ff.decl.End()})
+			}
+		}
+		inPending := func(f *ast.File, p token.Pos) bool {
+			for _, r := range pending[f] {
+				if r.s <= p && p < r.e {
+					return true
+				}
+			}
+			return false
+		}
 		// literals the inliner had to leave are flattened first
 		{
 			// several statements of one file are rewritten in one round when their source ranges do not overlap
@@ -288,6 +306,9 @@ func deextract(repo string, cfg BuildConfig, ref symTable, overlay map[string][]
 			for _, site := range findClosureVars(pkgs) {
 				if !changedAny {
 					break
+				}
+				if inPending(site.file, site.decl.Pos()) {
+					continue
 				}
 				fname, content, err := fileContent(site.pkg.Fset, site.file, prev)
 				if err != nil {
@@ -309,6 +330,9 @@ func deextract(repo string, cfg BuildConfig, ref symTable, overlay map[string][]
 				if !changedAny {
 					break
 				}
+				if inPending(site.file, site.stmt.Pos()) {
+					continue
+				}
 				fname, content, err := fileContent(site.pkg.Fset, site.file, prev)
 				if err != nil {
 					continue
@@ -327,6 +351,9 @@ func deextract(repo string, cfg BuildConfig, ref symTable, overlay map[string][]
 				perFile[fname] = append(perFile[fname], span{so, eo, []byte(text)})
 			}
 			for _, ed := range findSmallRewrites(pkgs, fresh) {
+				if ed.what == "hoist" && inPending(ed.file, ed.start) {
+					continue
+				}
 				fname, content, err := fileContent(ed.pkg.Fset, ed.file, prev)
 				if err != nil {
 					continue
